@@ -107,6 +107,12 @@ func (s *Sched) gate(o *Op) {
 	<-t.resume
 }
 
+// Park is an extra scheduling point for harness-made hooks (e.g. around an in-memory cache of the code under test): the
+// calling goroutine, if it is a registered task, parks as if it were about to perform a storage operation of that kind.
+func (s *Sched) Park(kind, key string) {
+	s.gate(&Op{G: GoID(), Kind: kind, Key: key})
+}
+
 // Spawn starts f in a new registered goroutine, parked before its first instruction.
 func (s *Sched) Spawn(name string, f func()) *Task {
 	t := &Task{Name: name, s: s, parked: make(chan *Op), resume: make(chan struct{}), done: make(chan struct{})}
